@@ -69,23 +69,67 @@ def is_generic_writer_impl(f):
     return bool(f.impl) and bool(re.search(r'<W(/#\d+)?>', f.impl['self_ty']))
 
 
-def path_calls(p, args=True):
-    """[(k, bid, callee, (arg exprs), term)] along a path; the last block's call is included only if the path continues after it"""
+_STRAIGHT = {}
+
+
+def straight_path(g):
+    """the single returning path of a loop-free local helper (diverging assert paths ignored), else None"""
+    if g.path in _STRAIGHT:
+        return _STRAIGHT[g.path]
+    _STRAIGHT[g.path] = None
+    if not g.loops():
+        from paths import explore
+        rets = [q for q in explore(g, max_visits=1, limit=64) if q.end == 'return']
+        if len(rets) == 1:
+            _STRAIGHT[g.path] = rets[0]
+    return _STRAIGHT[g.path]
+
+
+def path_calls(p, args=True, expand=False, _depth=0):
+    """[(k, bid, callee, (arg exprs), term)] along a path; the last block's call is included only if the path continues after it.
+    expand=True additionally lists, right after a call to a loop-free single-path LOCAL helper, the calls that helper makes, with the
+    helper's parameters replaced by the caller's argument expressions and access paths (term['_locs']); extracting a few statements
+    into a private method then leaves every event-based rule looking at the same events."""
     out = []
     n = len(p.blocks)
+    crate = getattr(p.fn, 'crate', None)
     for k, bid in enumerate(p.blocks):
         t = p.fn.blocks[bid]['term']
         if t and t['k'] == 'call':
             if k == n - 1 and p.end != 'diverge':
                 continue
-            ce = p.sym.call_expr_at((k, 'T')) if args else None
+            ce = p.sym.call_expr_at((k, 'T')) if (args or expand) else None
             callee = p.fn.callee(t)
             out.append((k, bid, callee, ce[2] if ce else None, t))
+            if expand and crate is not None and isinstance(callee, str) and callee in crate.fns and _depth < 3 and callee != p.fn.path:
+                g = crate.fns[callee]
+                gp = straight_path(g)
+                if gp is None:
+                    continue
+                from sym import subst, simplify_proj
+                m = {i + 1: a for i, a in enumerate(ce[2])}
+                clocs = [arg_loc(p.fn, t, i) for i in range(len(t['args']))]
+                for (k2, b2, c2, a2, t2) in path_calls(gp, True, True, _depth + 1):
+                    locs2 = []
+                    for i in range(len(t2['args'])):
+                        l = arg_loc(g, t2, i)
+                        if l is not None and isinstance(l[0], int) and 1 <= l[0] <= g.arg_count:
+                            base = clocs[l[0] - 1] if l[0] - 1 < len(clocs) else None
+                            l = (tuple(base) + tuple(l[1:])) if base is not None else ('?helper', g.path) + tuple(l)
+                        elif l is not None:
+                            l = ('?helper', g.path) + tuple(l)
+                        locs2.append(l)
+                    tw = dict(t2)
+                    tw['_locs'] = locs2
+                    tw['_in'] = g.path
+                    out.append((k, bid, c2, tuple(simplify_proj(subst(a, m)) for a in a2), tw))
     return out
 
 
 def arg_loc(f, t, i):
     """access path of the i-th call argument (references resolved): (root local, field, ...) or None for constants"""
+    if '_locs' in t:
+        return t['_locs'][i] if i < len(t['_locs']) else None
     if i >= len(t['args']):
         return None
     a = t['args'][i]
